@@ -803,7 +803,10 @@ impl<const MIN_ALIGN: usize> Bump<MIN_ALIGN> {
         self.allocation_limit.get().and_then(|allocation_limit| {
             let allocated_bytes = self.allocated_bytes();
             if allocated_bytes > allocation_limit {
-                None
+                // Already over the limit (it was lowered after the fact):
+                // there is no headroom left, which is not the same as
+                // there being no limit.
+                Some(0)
             } else {
                 Some(usize::abs_diff(allocation_limit, allocated_bytes))
             }
